@@ -174,6 +174,11 @@ def check(ctx):
         cex = F.counterexample(fb, F.parse("COMPLETE || VERIFIES")) if len(vs) == 1 else {"standard-flags VerifyScript atom": len(vs)}
         ctx.ob("SignTransaction/success-guard@L%s" % s.line, "MPT", "an input's error entry is cleared only if its data is complete or VerifyScript with the standard flags accepts the updated input",
                cex is None, s.where, None if cex is None else {"counterexample": cex})
+        # a witness spend whose amount is only the MAX_MONEY placeholder cannot have been verified against the real output
+        fb2, mp2, un2 = F.bind_atoms(f0, {"NOAMOUNT": re.compile(r"(.+ == (MAX_MONEY|2100000000000000)|(MAX_MONEY|2100000000000000) == .+)"), "NOWITNESS": re.compile(r".+\.scriptWitness\.IsNull\(\)")})
+        cex2 = F.counterexample(fb2, F.parse("!NOAMOUNT || NOWITNESS")) if {"NOAMOUNT", "NOWITNESS"} <= set(mp2.values()) else {"missing-amount test not found": True}
+        ctx.ob("SignTransaction/amount-known@L%s" % s.line, "MPT", "an input with a witness is reported signed only if its amount is known (not the MAX_MONEY placeholder): otherwise the "
+               "verification ran against an amount that is not the spent output's", cex2 is None, s.where, None if cex2 is None else {"counterexample": cex2})
     rets = [e for e in exits(stx, P) if e.kind == "ret"]
     okr = bool(rets) and all(is_expr(e.value) and show(e.value) == "input_errors.empty()" for e in rets)
     ctx.ob("SignTransaction/result", "LADDER", "SignTransaction reports success exactly as `input_errors.empty()`", okr, stx.where)
